@@ -3,6 +3,7 @@ package main
 // Discharging obligations: z3 4.8.12, z3-new 5.1.0 and cvc5 are raced per obligation.
 
 import (
+	"crypto/md5"
 	"bytes"
 	"encoding/json"
 	"context"
@@ -128,6 +129,16 @@ func SolveAll(prelude func(*FuncResult) string, frs []*FuncResult, pick func(*Ob
 			}
 			id++
 			q := fr.VC.Query(prelude(fr), o)
+			if hf := os.Getenv("GOVC_QHASH"); hf != "" {
+				// determinism self-test: one line per query (name, md5 of its text)
+				if fh, err := os.OpenFile(hf, os.O_APPEND|os.O_CREATE|os.O_WRONLY, 0o644); err == nil {
+					fmt.Fprintf(fh, "%s %x\n", o.Name, md5.Sum([]byte(q)))
+					fh.Close()
+				}
+			}
+			if dn := os.Getenv("GOVC_QDUMP"); dn != "" && strings.Contains(o.Name, dn) {
+				os.WriteFile(os.Getenv("GOVC_QDUMP_FILE"), []byte(q), 0o644)
+			}
 			if len(q) > 4<<20 {
 				o.Result = &SolveResult{Status: "unknown", Output: "query exceeds the 4 MB size cap"}
 				continue
